@@ -243,10 +243,19 @@ LOCATIONS = [None, "", "/other", "other?x=1", "http://127.0.0.1:8080/y", "http:/
              "http://[::1/", "http://::1]/", "http://nonexistent.invalid/", "//", "http://", "?q", "#f", "\xe9", "http://h:80:90/"]
 
 
-def redirect_streams():
+# families added with the fixes of three reported defects (replays/C32-D32c/d/e-unpatched.json):
+#   D32c odd host names in Location, D32d deeply nested json bodies, D32e percent-encoded delimiters in request targets
+ODD_HOSTS = ["http://a..b/", "http://.x/", "http://" + "a" * 70 + ".com/", "http://xn--/", "http://a%20b/", "http://-/",
+             "http://a_b.c/", "http://\xe9.x/"]
+DEEP = [b"[" * 3000, b"[" * 3000 + b"]" * 3000, b"{\"a\":" * 2000 + b"1" + b"}" * 2000]
+ENC_TARGETS = ["//%5Bx/", "/%2F%2F%5Bx", "//h:%78/", "/a%3A//[x", "/%5B", "//%5D/", "/p%3Fq%23f", "//h%3A80/", "/%00", "/%",
+               "//%5B::1%5D/", "/%2F%2Fh:x"]
+
+
+def redirect_streams(locations=None):
     out = []
     for st in (301, 302, 303, 307):
-        for loc in LOCATIONS:
+        for loc in (LOCATIONS if locations is None else locations):
             head = ("HTTP/1.1 %d Moved\r\n" % st).encode()
             if loc is not None:
                 head += b"Location: " + loc.encode("iso-8859-1") + b"\r\n"
@@ -295,7 +304,9 @@ class CHECK(core.Check):
                "the WSGI application, Responder output and real sockets are not modelled; CPython primitives as in C29",
                "the tree checked is /repo with fixes D19, D16, D29a, D29b, D18, D29c (committed); D32b-porter-errored-request, "
                "D32a-patron-bad-redirect (committed; defect replays on the old tree: replays/C32-D32a-unpatched.json, "
-               "replays/C32-D32b-unpatched.json)"]
+               "replays/C32-D32b-unpatched.json); D32c, D32d, D32e (committed; families: odd host names in "
+               "Location, json nested beyond the recursion limit, percent-encoded delimiters in request targets; replays on "
+               "the old tree: replays/C32-D32c/d/e-unpatched.json)"]
     PARTIAL = ["responses with Content-Type text/event-stream and request targets with bracketed / non-ASCII netloc are "
                "outside the model (explicit outcome 'unmodelled'); the oracle still checks them on the real code",
                "C32_serviceReqs_isolated is about the model of the Valet's connection table (one association list for "
@@ -436,6 +447,28 @@ class CHECK(core.Check):
                 c = self._porter_case(rng, stream)
                 c["hv"] = label
                 yield c
+        if True:         # odd host names in Location
+            for label, stream in redirect_streams(ODD_HOSTS):
+                yield {"type": "client", "method": "GET", "max": 65536, "redirectable": True, "oracle_only": True, "hv": label,
+                       "ops": ["f" + hx(stream), "f-"]}
+        if True:         # json nested deeper than the interpreter's recursion limit, to every json consumer
+            for deep in DEEP:
+                for ct in (b"Content-Type: application/json\r\n", b""):
+                    tail = ct + b"Content-Length: %d\r\n\r\n" % len(deep) + deep
+                    for dictable in (False, True):
+                        yield {"type": "client", "method": "GET", "max": 65536, "dictable": dictable, "hv": "deep-json",
+                               "ops": ["f" + hx(b"HTTP/1.1 200 OK\r\n" + tail)]}
+                    for mk in (self._server_case, self._porter_case):
+                        c = mk(rng, b"POST /x HTTP/1.1\r\n" + tail) if mk == self._porter_case else mk(rng, bad=b"POST /x HTTP/1.1\r\n" + tail)
+                        c["hv"] = "deep-json"
+                        yield c
+        if True:         # percent-encoded delimiters in the request target, to both servers
+            for t in ENC_TARGETS:
+                stream = ("GET %s HTTP/1.1\r\nHost: h\r\n\r\n" % t).encode()
+                for mk in (self._server_case, self._porter_case):
+                    c = mk(rng, stream) if mk == self._porter_case else mk(rng, bad=stream)
+                    c["hv"] = "target/" + t
+                    yield c
         if True:         # redirect responses to a redirectable Patron; a followed redirect is answered by a 200
             for label, stream in redirect_streams():
                 yield {"type": "client", "method": "GET", "max": 65536, "redirectable": True, "oracle_only": True, "hv": label,
